@@ -66,7 +66,11 @@ func coordMain(args []string) {
 	fs.IntVar(&c.nworkers, "workers", 0, "")
 	scale := fs.Float64("scale", 1, "multiply run counts (self-tests use a small scale)")
 	det := fs.Bool("det", false, "emit per-run digests (determinism self-test)")
+	t0 := fs.Int64("t0", 0, "unix time the check started (build included)")
 	_ = fs.Parse(args)
+	if *t0 > 0 {
+		c.t0 = time.Unix(*t0, 0)
+	}
 	if c.nworkers <= 0 {
 		c.nworkers = runtime.NumCPU()
 		if c.nworkers > 16 {
@@ -81,27 +85,27 @@ func coordMain(args []string) {
 	switch c.prop {
 	case "C09":
 		if q {
-			phases = []phase{{name: "variations", runs: 200, deadline: 90 * time.Second}}
+			phases = []phase{{name: "variations", runs: 4000, deadline: 60 * time.Second}}
 		} else {
-			phases = []phase{{name: "variations", runs: 24000, deadline: 22 * time.Minute}}
+			phases = []phase{{name: "variations", runs: 2400000, deadline: 25 * time.Minute}}
 		}
 	case "C10":
 		if q {
-			phases = []phase{{name: "histories", runs: 110, deadline: 90 * time.Second}}
+			phases = []phase{{name: "histories", runs: 700, deadline: 60 * time.Second}}
 		} else {
-			phases = []phase{{name: "histories", runs: 25000, deadline: 22 * time.Minute}}
+			phases = []phase{{name: "histories", runs: 2000000, deadline: 25 * time.Minute}}
 		}
 	case "C11":
 		if q {
-			phases = []phase{{name: "plain", runs: 220, deadline: 60 * time.Second}, {name: "race", race: true, runs: 110, deadline: 75 * time.Second}}
+			phases = []phase{{name: "plain", runs: 700, deadline: 45 * time.Second}, {name: "race", race: true, runs: 400, deadline: 45 * time.Second}}
 		} else {
-			phases = []phase{{name: "plain", runs: 70000, deadline: 12 * time.Minute}, {name: "race", race: true, runs: 25000, deadline: 16 * time.Minute}}
+			phases = []phase{{name: "plain", runs: 2000000, deadline: 12 * time.Minute}, {name: "race", race: true, runs: 2000000, deadline: 15 * time.Minute}}
 		}
 	case "C19":
 		if q {
-			phases = []phase{{name: "histories", runs: 4000, deadline: 60 * time.Second, extra: []string{"-exhaustive", "3"}}}
+			phases = []phase{{name: "histories", runs: 60000, deadline: 60 * time.Second, extra: []string{"-exhaustive", "4"}}}
 		} else {
-			phases = []phase{{name: "histories", runs: 400000, deadline: 15 * time.Minute, extra: []string{"-exhaustive", "5"}}}
+			phases = []phase{{name: "histories", runs: 20000000, deadline: 15 * time.Minute, extra: []string{"-exhaustive", "5"}}}
 		}
 	default:
 		fatalExit("coord: unknown property " + c.prop)
@@ -116,8 +120,16 @@ func coordMain(args []string) {
 		}
 	}
 	fmt.Printf("jsim: property=%s tier=%s VERIF_SEED=%d workers=%d\n", c.prop, c.tier, c.seed, c.nworkers)
+	// replay files of earlier runs of this property are stale once the check runs again
+	if old, _ := filepath.Glob(filepath.Join(c.verif, "replays", c.prop+"-*.json")); len(old) > 0 {
+		for _, f := range old {
+			_ = os.Remove(f)
+		}
+	}
 	for _, ph := range phases {
+		tp := time.Now()
 		c.runPhase(ph)
+		fmt.Printf("jsim: phase %s: %d runs in %.1fs (%d candidate violations so far)\n", ph.name, c.totalRuns(), time.Since(tp).Seconds(), len(c.cands))
 	}
 	if len(c.infra) > 0 {
 		c.writeEvidence(0, nil)
@@ -456,7 +468,7 @@ func (c *coord) conclude() int {
 		if cd.World == nil && !cd.Explore {
 			continue
 		}
-		sig := cd.Violation.Class + "/" + cd.Violation.Kind
+		sig := cd.Violation.Class + "/" + cd.Violation.Kind + "/" + fingerprint(cd.Violation.Want, cd.Violation.Got)
 		if cd.Violation.Class == "race" || cd.Violation.Class == "deadlock" || cd.Violation.Class == "lin" {
 			sig = cd.Violation.Class
 		}
@@ -544,6 +556,34 @@ func (c *coord) conclude() int {
 		fmt.Printf("jsim: property %s held on everything explored (%d runs)\n", c.prop, c.totalRuns())
 	}
 	return exit
+}
+
+// fingerprint characterises *where* two observations differ (text around the
+// first difference, digits folded), so that different causes on the same call
+// kind are minimised and reported separately.
+func fingerprint(want, got string) string {
+	if want == "" && got == "" {
+		return ""
+	}
+	i := 0
+	for i < len(want) && i < len(got) && want[i] == got[i] {
+		i++
+	}
+	lo := i - 10
+	if lo < 0 {
+		lo = 0
+	}
+	hi := i + 6
+	if hi > len(want) {
+		hi = len(want)
+	}
+	b := []byte(want[lo:hi])
+	for k := range b {
+		if b[k] >= '0' && b[k] <= '9' {
+			b[k] = '0'
+		}
+	}
+	return string(b)
 }
 
 func clip(s string, n int) string {
